@@ -243,6 +243,10 @@ pub fn style_from<C: Col>(d: &Value) -> PrimitiveStyle<C> {
         1 => StrokeAlignment::Center,
         _ => StrokeAlignment::Outside,
     });
+    // optional: {"dot": 1} selects the dotted stroke style (the default is solid)
+    if d["dot"].as_i64() == Some(1) {
+        b = b.stroke_style(embedded_graphics::primitives::StrokeStyle::Dotted);
+    }
     b.build()
 }
 pub fn style_desc(fill: i64, stroke: i64, w: u32, al: u32) -> Value {
